@@ -70,10 +70,11 @@ Fixpoint regs_num (n : nat) (l : list bytes) : option (list N) :=
 Definition rhll_regs (s : store) (h : rhll) : option (list N) :=
   regs_num (N.to_nat (rh_m h)) (r_list s (rh_key h)).
 
-(* harmonic-mean script: the Lua number is truncated to an integer by the reply conversion *)
-Definition rhll_hmean_floor (s : store) (h : rhll) : option N :=
+(* harmonic-mean script (after the repair: returned as a decimal string, %.14g): the sum as an
+   exact dyadic rational numerator over 2^255 *)
+Definition rhll_hmean_num (s : store) (h : rhll) : option N :=
   match rhll_regs s h with
-  | Some regs => Some (sumN (map (fun r => 2 ^ (255 - N.min r 255)) regs) / 2 ^ 255)
+  | Some regs => Some (sumN (map (fun r => 2 ^ (255 - N.min r 255)) regs))
   | None => None
   end.
 
